@@ -574,7 +574,7 @@ macro_rules! k_c07_range_seek_inv {
                 Ok(s) => s,
                 Err(_) => return 1,
             };
-            if lower.wrapping_add(range) > lower || n == 0 || n > 3 || w == <$W>::MAX {
+            if lower.wrapping_add(range) > lower || n == 0 || n > 2 || w == <$W>::MAX {
                 return 1;
             }
             let m = Cuts::<$Pr, $P> { c1, c2 };
